@@ -358,6 +358,21 @@ def binop(ev, op, a, b, node, fr):
         d = DictV(a.d)
         d.d.update(b.d)
         return d
+    if isinstance(a, PolyV) and isinstance(b, Num) and not b.shape and not isinstance(a, DerivedPoly) \
+            and isinstance(op, (ast.Add, ast.Sub, ast.Mult, ast.Div)):
+        # polynomial and a scalar: the constant term moves / every coefficient scales, in whatever basis the polynomial is held
+        cs = list(a.coeffs)
+        if isinstance(op, ast.Add):
+            cs[0] = cs[0] + b.expr
+        elif isinstance(op, ast.Sub):
+            cs[0] = cs[0] - b.expr
+        elif isinstance(op, ast.Mult):
+            cs = [c * b.expr for c in cs]
+        else:
+            cs = [c / b.expr for c in cs]
+        return PolyV(cs, a.domain, a.window)
+    if isinstance(b, PolyV) and isinstance(a, Num) and not a.shape and not isinstance(b, DerivedPoly) and isinstance(op, (ast.Add, ast.Mult)):
+        return binop(ev, op, b, a, node, fr)
     if not (isinstance(a, Num) and isinstance(b, Num)):
         if isinstance(a, NoneV) or isinstance(b, NoneV):
             raise Raised("TypeError", node, "arithmetic with None")
@@ -917,8 +932,11 @@ def val_getattr(ev, obj, name, fr, node):
     if isinstance(obj, HeaderV) and name in obj.hattrs:
         return obj.hattrs[name]
     if isinstance(obj, PolyV):
-        if name == "domain":
-            return TupleV([Num(obj.domain[0]), Num(obj.domain[1])])
+        if name in ("domain", "window"):
+            d_ = obj.domain if name == "domain" else obj.window
+            return NdArr((2,), [Num(d_[0], isfloat=True), Num(d_[1], isfloat=True)])      # an ndarray of two numbers
+        if name == "coef":
+            return NdArr((len(obj.coeffs),), [Num(c) for c in obj.coeffs])
         return BoundBuiltin(obj, name)
     if isinstance(obj, NdArr):
         if name == "shape":
